@@ -93,6 +93,29 @@ theorem c18_sites_witnessed :
     (Gozod.Gen.issueSites.filter fun s => s.reaches && (!s.reached.isEmpty || !s.cells.isEmpty)).length ≥ 50 := by
   decide +kernel
 
+/-! ## Static table = run, for the calls only the coverage search reaches (audit M6: `c18_static_dynamic` alone is vacuous for
+    the rows without a leaf) -/
+
+def srcUnion' (a b : SrcSet) : SrcSet :=
+  ⟨a.check || b.check, a.schema || b.schema, a.parse || b.parse, a.custom || b.custom, a.locale || b.locale⟩
+
+/-- one observation of the run agrees with the static rows: with only `src` configured the message is that source's iff
+    neither the row of the first frame outside internal/issues nor the row of FinalizeIssue's caller drops it -/
+def reachObsOk (o : String × String × String × String) : Bool :=
+  match Gozod.Gen.issueSites.find? (fun s => s.key == o.1), Gozod.Gen.issueSites.find? (fun s => s.key == o.2.1) with
+  | some ro, some rf => siteMessage (srcUnion' ro.drops rf.drops).compl (.ofString o.2.2.1) == o.2.2.2
+  | _, _ => false
+
+/-- **c18_static_dynamic_cells** (decided over the regenerated tables): every observation of the coverage search — a
+    constructor family x variant x input whose parse resolved a message at a call of the static table, parsed again with one
+    source configured — shows exactly what the go/ast table says about that call: a source the rows hand on decides the
+    message, a source a row drops does not. -/
+theorem c18_static_dynamic_cells : ∀ o ∈ Gozod.Gen.reachObs, reachObsOk o = true := by
+  decide +kernel
+
+theorem c18_reach_obs_nonvacuous : Gozod.Gen.reachObs.length ≥ 100 := by
+  decide +kernel
+
 /-! ## The producible set is closed under the creators -/
 
 open Gozod.Gen in
@@ -164,6 +187,11 @@ theorem c18_declared_codes_columns :
     ∀ c ∈ Gozod.Gen.IssueCodes.codes, Gozod.Gen.localeKinds.contains (c.2 ++ ":bare") = true := by
   decide +kernel
 
+/-- closure: a creator called anywhere in the library is in C04's table or is not a function of internal/issues' creators.go
+    (the rows whose callee starts with "Create" and that create or finalise an issue) -/
+def createCallee (s : IssueSite) : Bool :=
+  s.callee.startsWith "Create" && (s.cls == "raw" || s.cls == "helper")
+
 def sameCodes (a b : List String) : Bool := a.all (b.contains ·) && b.all (a.contains ·)
 
 /-- **c18_sites_agree_with_creators**: the two independent go/ast translators agree — wherever a call of C18's static
@@ -173,16 +201,13 @@ def siteAgrees (s : IssueSite) : Bool :=
   match Gozod.Gen.IssueCreators.creators.find? (fun c => c.name == s.callee) with
   | some c =>
     let cs := codesOf 6 c
-    cs.isEmpty || cs.contains "?" || sameCodes cs (codesOfSite s)
-  | none => true
+    -- an unresolved code ("?") is a FAILURE; an empty list means the creator takes its code from its caller (`.param`) or
+    -- copies an existing issue's (`.inherit`): nothing to compare
+    !cs.contains "?" && (cs.isEmpty || sameCodes cs (codesOfSite s))
+  | none => !createCallee s   -- a Create… call that C04's table does not know is a failure (see c18_creators_closed)
 
 theorem c18_sites_agree_with_creators : ∀ s ∈ Gozod.Gen.issueSites, siteAgrees s = true := by
   decide +kernel
-
-/-- closure: a creator called anywhere in the library is in C04's table or is not a function of internal/issues' creators.go
-    (the rows whose callee starts with "Create" and that create or finalise an issue) -/
-def createCallee (s : IssueSite) : Bool :=
-  s.callee.startsWith "Create" && (s.cls == "raw" || s.cls == "helper")
 
 theorem c18_creators_closed :
     ∀ s ∈ Gozod.Gen.issueSites, createCallee s = true →
